@@ -10,9 +10,11 @@ import (
 	"crypto/md5"
 	"fmt"
 	"io/ioutil"
+	"net"
 	"os"
 	"strconv"
 	"strings"
+	"sync"
 	"testing"
 	"time"
 
@@ -353,5 +355,105 @@ func TestVerifC01(t *testing.T) {
 		if i < 3 {
 			run.Sample(c)
 		}
+	})
+	c01Concurrent(t, run, hs, base)
+}
+
+// c01Concurrent: the same G1/P2 clauses under concurrency. Several clients GET,
+// HEAD and PUT a handful of intact blocks at the same time, after a few PUT
+// requests that announce a Content-Length and then send fewer bytes (aborted
+// uploads). Whatever the handlers share (buffers, pools), a 200 must carry
+// exactly the bytes of the hash that was asked for.
+func c01Concurrent(t *testing.T, run *verifkit.Run, hs *vkHTTP, base string) {
+	n := run.N(24, 400)
+	caseNo := 0
+	run.Cases("conc", n, func(i int, rng *verifkit.Rand) {
+		caseNo++
+		dir := fmt.Sprintf("%s/conc%d", base, caseNo)
+		nvol := rng.Range(1, 2)
+		var vols []vkVol
+		for v := 0; v < nvol; v++ {
+			root := fmt.Sprintf("%s/v%d", dir, v)
+			os.MkdirAll(root, 0755)
+			vols = append(vols, vkVol{UUID: fmt.Sprintf("zzzzz-nyw5e-%015d", v), Root: root})
+		}
+		defer os.RemoveAll(dir)
+		nblocks := rng.Range(3, 6)
+		size := rng.PickInt(64, 1000, 4096, 70000)
+		var blocks [][]byte
+		var hashes []string
+		for b := 0; b < nblocks; b++ {
+			d := bytes.Repeat([]byte{byte('a' + b)}, size)
+			copy(d, rng.Bytes(16))
+			blocks = append(blocks, d)
+			hashes = append(hashes, verifkit.MD5Hex(d))
+			if rng.Bool() {
+				vkPlant(t, vols[rng.Intn(nvol)].Root, hashes[b], d, time.Now().Add(-100*time.Hour))
+			}
+		}
+		nabort := rng.Range(1, 4)
+		nclients := rng.Range(4, 10)
+		run.Input(map[string]int{"nvol": nvol, "blocks": nblocks, "size": size, "aborted_puts": nabort, "clients": nclients}, false)
+		cluster := vkCluster(t)
+		srv := vkNewServer(t, cluster, vols, false)
+		defer srv.Close()
+		hs.Set(srv.handler)
+		// aborted uploads over raw connections
+		addr := strings.TrimPrefix(hs.srv.URL, "http://")
+		for a := 0; a < nabort; a++ {
+			b := rng.Intn(nblocks)
+			conn, err := net.DialTimeout("tcp", addr, 5*time.Second)
+			if err != nil {
+				continue
+			}
+			sent := rng.Intn(size)
+			fmt.Fprintf(conn, "PUT /%s HTTP/1.1\r\nHost: x\r\nAuthorization: OAuth2 %s\r\nContent-Length: %d\r\n\r\n", hashes[b], vkRootToken, size)
+			conn.Write(blocks[b][:sent])
+			if tc, ok := conn.(*net.TCPConn); ok && rng.Bool() {
+				tc.CloseWrite()
+				conn.SetReadDeadline(time.Now().Add(2 * time.Second))
+				ioutil.ReadAll(conn)
+			}
+			conn.Close()
+			run.Count("conc_aborted_puts", 1)
+		}
+		var wg sync.WaitGroup
+		for c := 0; c < nclients; c++ {
+			crng := rng.Fork()
+			wg.Add(1)
+			go func() {
+				defer wg.Done()
+				for k := 0; k < 25; k++ {
+					b := crng.Intn(nblocks)
+					switch crng.Intn(4) {
+					case 0:
+						r := hs.Do("PUT", "/"+hashes[b], blocks[b], vkRootToken)
+						run.Eval(1)
+						if r.Status == 200 {
+							g := hs.Do("GET", "/"+hashes[b], nil, vkRootToken)
+							run.Eval(1)
+							if g.Status != 200 || !bytes.Equal(g.Body, blocks[b]) {
+								run.Violation("C01:P2:concurrent:acked-put-not-retrievable", fmt.Sprintf("PUT %s acknowledged, GET gives %d with md5 %s", hashes[b], g.Status, verifkit.MD5Hex(g.Body)), nil)
+							}
+						}
+					default:
+						r := hs.Do("GET", "/"+hashes[b], nil, vkRootToken)
+						run.Eval(1)
+						run.Count("conc_gets", 1)
+						if r.Status == 200 && (verifkit.MD5Hex(r.Body) != hashes[b] || r.CLenH != strconv.Itoa(len(r.Body))) {
+							other := "unknown bytes"
+							for o := range blocks {
+								if bytes.Equal(r.Body, blocks[o]) {
+									other = "the bytes of another block that was requested concurrently"
+								}
+							}
+							run.Violation("C01:G1:concurrent:get200-wrong-bytes", fmt.Sprintf("GET %s answered 200 (Content-Length %s) with a body whose md5 is %s: %s", hashes[b], r.CLenH, verifkit.MD5Hex(r.Body), other), nil)
+						}
+					}
+				}
+			}()
+		}
+		wg.Wait()
+		run.Feature(fmt.Sprintf("conc:nvol=%d,blocks=%d,size=%d,aborted=%d,clients=%d", nvol, nblocks, size, nabort, nclients))
 	})
 }
